@@ -129,37 +129,37 @@ def configs(tier):
         cs.append(dict(name="ini%d" % fl, fam="A", init=[("A", fl)], reg=[], attrs=["A"], targets=["N0", "N2", "N3"],
                        inis=["c:0", "c:0,1", "c:2,3", "c:1,2", "o:P3", "o:K1"] if th else ["c:0", "c:0,1", "c:2,3", "c:1,2", "o:P3"],
                        vals=[0, 1, 2] if th else [0, 1], flags=[0],
-                       topo=(RESTRICTS["A"][:5] + OTHERS) if th else (RESTRICTS["A"][:4] + [("dup",), ("xml", 0)]),
+                       topo=(RESTRICTS["A"][:5] + OTHERS) if th else ([RESTRICTS["A"][i] for i in (0, 1, 3)] + [("xml", 0)]),
                        obs=["A"], maxreg=0, maxset=2, maxtopo=1, maxtouch=1, maxlen=4,
-                       stripes=12 if th else 24, cap=9000 if th else 900))
+                       stripes=12 if th else 24, cap=5000 if th else 900))
     # three stored values (ties and strict orders for best-of), fewer initiators
     cs.append(dict(name="ini3", fam="A", init=[("A", 5)], reg=[], attrs=["A"], targets=["N0", "N2", "N3"] if th else ["N0", "N3"],
                    inis=["c:0,1", "c:2,3", "o:P3"] if th else ["c:0,1", "o:P3"], vals=[0, 1, 2], flags=[0],
                    topo=[("xml", 0), ("restrict", "c", "0,2", 0)], obs=["A"], maxreg=0, maxset=3, maxtopo=1, maxtouch=0, maxlen=4,
-                   stripes=12 if th else 12, cap=6000 if th else 500))
+                   stripes=12 if th else 12, cap=4000 if th else 500))
     # (2) attribute without initiator, non-NUMA target, read-only attributes, bad arguments
     cs.append(dict(name="noini", fam="D", init=[("A", 1)], reg=[], attrs=["A", "Capacity", "Locality", "#4242"], targets=["N0", "N1", "N2", "K1"],
                    inis=["n", "c:0", "x", "c:-", "o:P2"], vals=[0, 1, 2] if th else [0, 1], flags=[0, 1],
                    topo=(RESTRICTS["D"][:4] + OTHERS) if th else (RESTRICTS["D"][:3] + [("dupdrop",), ("xml", 2)]),
                    obs=["A", "Capacity", "Locality", "#4242"], maxreg=0, maxset=2, maxtopo=1, maxtouch=1, maxlen=4,
-                   stripes=16 if th else 64, cap=5000 if th else 500))
+                   stripes=16 if th else 64, cap=3000 if th else 500))
     # (3) a custom and a predefined attribute side by side (XML export of predefined attributes with values)
     cs.append(dict(name="two", fam="B", init=[("A", 6)], reg=[], attrs=["A", "Bandwidth"], targets=["N4", "N1"],
                    inis=["c:0,1", "c:2,3", "c:0", "o:P1", "n", "z"] if th else ["c:0,1", "c:2,3", "o:P1", "n"], vals=[0, 1], flags=[0],
                    topo=(RESTRICTS["B"] + OTHERS) if th else (RESTRICTS["B"][:3] + [("dup",), ("xml", 0)]),
                    obs=["A", "Bandwidth"], maxreg=0, maxset=3 if th else 2, maxtopo=1, maxtouch=1, maxlen=5 if th else 4,
-                   stripes=24 if th else 16, cap=6000 if th else 500))
+                   stripes=24 if th else 16, cap=4000 if th else 500))
     # (4) registration: every flag word 0..8 and 16, new and used names, interleaved with dup / XML
     cs.append(dict(name="reg", fam="B", init=[], reg=[(n, w) for n in ("A", "B", "Capacity", "Latency") for w in list(range(9)) + [16]],
                    attrs=["A", "B"], targets=["N4"], inis=["c:0,1", "n"], vals=[1], flags=[0],
                    topo=OTHERS + [("restrict", "c", "0,1", 1)], obs=["A", "B", "Capacity"], maxreg=3 if th else 2, maxset=1, maxtopo=1, maxtouch=0, maxlen=4 if th else 3,
-                   stripes=8 if th else 8, cap=3000 if th else 400))
+                   stripes=8 if th else 8, cap=2000 if th else 400))
     return cs
 
 
 def sim_configs(tier):
     th = tier == "thorough"
-    n = 1500 if th else 60
+    n = 300 if th else 60          # walks per TLC worker
     cs = []
     for fam, targets, inis, attrs, init in [
         ("A", ["N0", "N2", "N3", "K1"], ["c:0", "c:0,1", "c:2,3", "c:1,2", "c:0,1,2,3", "c:3", "o:P3", "o:K1", "o:P0", "n", "c:-"], ["A", "B", "Latency"], [("A", 5), ("B", 2)]),
@@ -221,14 +221,14 @@ def cfg(c, nstripes, stripe, mode):
     return s
 
 
-def beh_text(c, hist, salt=0):
+def beh_text(c, hist, salt=0, sim=False):
     """behaviour text of one model history"""
     names = sorted(set([u[0] for u in c["init"]] + [r[0] for r in c["reg"]] + [a for a in c["obs"] if not a.startswith("#")] + ["Capacity"]))
     lines = preamble(c["fam"], names)
     for u in c["init"]:
         lines.append("reg %s %d" % u)
     h = int(hashlib.md5((json.dumps(hist, sort_keys=True) + str(salt)).encode()).hexdigest()[:8], 16)
-    every = (h % 4 == 0)          # observe after every step (eager refresh) or only where the model does (lazy paths)
+    every = (h % (8 if sim else 4) == 0)   # observe after every step (eager refresh) or only where the model does (lazy paths)
     obsline = "obs " + " ".join(c["obs"])
     for i, o in enumerate(hist):
         if o[0] == "reg":
@@ -241,6 +241,8 @@ def beh_text(c, hist, salt=0):
             lines.append(o[0])
         elif o[0] == "xml":
             lines.append("xml %d" % o[1])
+            if o[1] == 2:
+                lines.append("adopt")      # v2 format "may miss some details": the reloaded store is adopted afresh
         elif o[0] == "touch":
             lines.append("refresh" if (h >> (3 + i)) & 1 else obsline)
         if every and i + 1 < len(hist) and o[0] != "touch":
@@ -269,7 +271,7 @@ def extra_behaviours():
               "set A %s c:0,1 %d 0" % (t0, (1 << 64) - 1), "set A %s c:2,3 %d 0" % (t0, 1 << 63), "set A %s c:0,1 %d 0" % (t1, (1 << 32) + 5),
               "set B %s c:0,1 %d 0" % (t0, (1 << 64) - 1), "set B %s c:0,1 %d 0" % (t1, (1 << 64) - 2), "set B %s o:%s 0 0" % (t1, f["objs"][0]),
               "set Capacity %s n 5 0" % t0, "set Locality %s n 5 0" % t0, "set #77 %s n 5 0" % t0, "set A %s c:0,1 1 4" % t0,
-              "obs A B Capacity Locality #77", "xml 0", "obs A B", "dup", "obs A B", "xml 2", "obs A B", "local"]
+              "obs A B Capacity Locality #77", "xml 0", "obs A B", "dup", "obs A B", "xml 2", "adopt", "obs A B", "local"]
         behs.append("\n".join(l) + "\n")
     # default nodeset: subtypes, nodes whose OS index differs from their rank
     for syn, pre in [("pack:2 [numa(indexes=1,2)] pu:2", ["subtype N2 HBM"]),
@@ -302,7 +304,8 @@ def advisory_behaviours():
 # ---------------------------------------------------------------------------------------------
 BUNDLED_XML = ["tests/hwloc/xml/8intel64-4n2t-memattrs.xml", "tests/hwloc/xml/64intel64-fakeKNL-SNC4-hybrid.xml"]
 BUNDLED_TAR = ["tests/hwloc/linux/fakeheteromemtiers.tar.bz2", "tests/hwloc/linux/fakememinitiators-1np2c+1npp+gi.tar.bz2",
-               "tests/hwloc/linux/64intel64-fakeKNL-SNC4-hybrid.tar.bz2", "tests/hwloc/linux/nvidiagpunumanodes-kept.tar.bz2"]
+               "tests/hwloc/linux/64intel64-fakeKNL-SNC4-hybrid.tar.bz2", "tests/hwloc/linux/nvidiagpunumanodes.tar.bz2"]
+BUNDLED_ENV = {"nvidiagpunumanodes.tar.bz2": "HWLOC_KEEP_NVIDIA_GPU_NUMA_NODES=1"}
 
 
 def bundled_behaviours(ctx, thorough):
@@ -311,7 +314,7 @@ def bundled_behaviours(ctx, thorough):
     for x in BUNDLED_XML:
         p = os.path.join(REPO, x)
         if os.path.exists(p):
-            srcs.append(("xml", p))
+            srcs.append(("xml", p, None))
     for t in BUNDLED_TAR:
         p = os.path.join(REPO, t)
         if not os.path.exists(p):
@@ -323,15 +326,15 @@ def bundled_behaviours(ctx, thorough):
                 tf.extractall(d)
         sub = [e for e in os.listdir(d)]
         root = os.path.join(d, sub[0]) if len(sub) == 1 and os.path.isdir(os.path.join(d, sub[0])) else d
-        srcs.append(("fsroot", root))
+        srcs.append(("fsroot", root, BUNDLED_ENV.get(os.path.basename(t))))
     tails = [["dup", "obs", "xml 0", "obs", "local"],
-             ["xml 2", "obs", "dupdrop", "obs"],
+             ["xml 2", "adopt", "obs", "dupdrop", "obs"],
              ["restrict c 0,1,2,3 0", "obs", "xml 0", "obs", "local"],
              ["restrict n 0,1 8", "dup", "obs"],
              ["restrict c 0 1", "xml 0", "obs", "local"]]
-    for kind, p in srcs:
+    for kind, p, env in srcs:
         for tail in (tails if thorough else tails[:3]):
-            l = ["reset", "topo %s %s" % (kind, p), "auto", "names Bandwidth Latency Capacity", "begin adopt", "adopt"] + tail
+            l = ["reset", "topo %s %s" % (kind, p)] + (["env " + env] if env else []) + ["auto", "names Bandwidth Latency Capacity", "begin adopt", "adopt"] + tail
             behs.append("\n".join(l) + "\n")
     return behs
 
@@ -394,9 +397,9 @@ def run(ctx, replay=None):
         mod = gen_module(c, topos[c["fam"]])
         if kind == "bfs":
             return ctx.tlc_mc("MC_MemAttrs_gen", cfg(c, c["stripes"], st, "bfs"), tag="bfs_%s_%d" % (c["name"], st),
-                              extra_modules=[("MC_MemAttrs_gen.tla", mod)], timeout=3000, workers=wk)
+                              extra_modules=[("MC_MemAttrs_gen.tla", mod)], timeout=3000, workers=wk, heap="3g")
         return ctx.tlc_mc("MC_MemAttrs_gen", cfg(c, 1, 0, "sim"), tag=c["name"], simulate="num=%d" % c["num"], depth=c["simlen"] + 1,
-                          extra_modules=[("MC_MemAttrs_gen.tla", mod)], timeout=1500, workers=wk)
+                          extra_modules=[("MC_MemAttrs_gen.tla", mod)], timeout=1500, workers=wk, heap="2g")
 
     import concurrent.futures as cf
     with cf.ThreadPoolExecutor(max_workers=par) as ex:
@@ -412,7 +415,7 @@ def run(ctx, replay=None):
                 hs = rng.sample(hs, c["cap"])
             behs += [beh_text(c, h, salt=ctx.seed + k) for h, k in hs]
         else:
-            behs += [beh_text(c, h, salt=ctx.seed) for h in vlib.tlc_printed(out, "SIM")]
+            behs += [beh_text(c, h, salt=ctx.seed, sim=True) for h in vlib.tlc_printed(out, "SIM")]
 
     nmodel = len(behs)
     vlib.log("C14: %d model behaviours after %.0fs" % (nmodel, __import__("time").time() - ctx.t0))
@@ -426,20 +429,24 @@ def run(ctx, replay=None):
     tf = ctx.path("trace.ndjson")
     ctx.record(exe, bf, tf, timeout=3000)
     vlib.log("C14: recorded %d MB after %.0fs" % (os.path.getsize(tf) >> 20, __import__("time").time() - ctx.t0))
-    rejs = ctx.validate("TraceMemAttrs", tf, cfg=TV_CFG % "FALSE", timeout=3000)
+    rejs = ctx.validate("TraceMemAttrs", tf, cfg=TV_CFG % "FALSE", timeout=3000, heap="2g",
+                        nshards=max(vlib.NCPU, (os.path.getsize(tf) >> 20) // 12))
     vlib.log("C14: validated after %.0fs" % (__import__("time").time() - ctx.t0))
     ctx.handle_rejections(rejs, behs, replay_fn)
 
     # (5) advisory: default nodeset maximality (documented aim of the heuristic, outside the fixed statement)
     adv = advisory_behaviours()
     acc0, ev0 = ctx.accepted, ctx.events
-    nadv = 0
-    for b in adv:
-        if replay_fn(b, advisory=True):
-            nadv += 1
-            ctx.notes.append("ADVISORY (not a verdict): hwloc_topology_get_default_nodeset() left out a non-empty node disjoint from "
-                             "every selected one: " + " / ".join(b.strip().split("\n")[1:-3]))
+    ap = ctx.path("advisory.beh")
+    open(ap, "w").write("".join(adv))
+    ctx.record(exe, ap, ap + ".ndjson")
+    arej = ctx.validate("TraceMemAttrs", ap + ".ndjson", cfg=TV_CFG % "TRUE", nshards=1, max_rej=len(adv))
     ctx.accepted, ctx.events = acc0, ev0
+    nadv = len(arej)
+    for r in arej:
+        b = adv[r["beh"]]
+        ctx.notes.append("ADVISORY (not a verdict): hwloc_topology_get_default_nodeset() left out a non-empty node disjoint from "
+                         "every selected one: " + " / ".join(b.strip().split("\n")[1:-5]))
     if nadv:
         vlib.log("ADVISORY: default nodeset not maximal on %d of %d scenarios (see evidence notes; outside the fixed statement)" % (nadv, len(adv)))
 
